@@ -49,7 +49,7 @@ NO_PANIC_EXACT = {
     "std::option::Option::<T>::map", "std::option::Option::<T>::map_or", "std::option::Option::<T>::is_some", "std::option::Option::<T>::is_none", "std::option::Option::<T>::unwrap_or", "std::option::Option::<T>::unwrap_or_default", "std::option::Option::<T>::ok_or", "std::result::Result::<T, E>::map", "std::result::Result::<T, E>::map_err", "std::result::Result::<T, E>::is_ok", "std::result::Result::<T, E>::is_err", "std::result::Result::<T, E>::ok", "std::result::Result::<T, E>::and_then",
     "std::iter::Iterator::enumerate", "std::iter::Iterator::zip", "std::iter::Iterator::skip", "std::iter::Iterator::cycle", "std::iter::Iterator::for_each", "std::iter::Iterator::next",
     "core::slice::<impl [T]>::iter", "core::slice::<impl [T]>::iter_mut", "core::slice::<impl [T]>::len", "core::slice::<impl [T]>::is_empty",
-    "core::str::<impl str>::chars", "core::str::<impl str>::is_empty", "core::str::<impl str>::len", "core::str::<impl str>::as_bytes", "core::str::<impl str>::bytes", "core::str::<impl str>::char_indices", "core::str::<impl str>::is_ascii", "core::slice::<impl [u8]>::is_ascii", "core::slice::<impl [u8]>::make_ascii_uppercase", "core::slice::<impl [u8]>::to_ascii_uppercase", "core::slice::<impl [u8]>::eq_ignore_ascii_case", "core::str::<impl str>::to_ascii_uppercase", "core::str::<impl str>::make_ascii_uppercase", "core::num::<impl u8>::to_ascii_uppercase", "core::num::<impl u8>::is_ascii", "core::num::<impl u8>::is_ascii_control", "std::str::from_utf8", "core::str::from_utf8",
+    "core::str::<impl str>::chars", "core::str::<impl str>::is_empty", "core::str::<impl str>::len", "core::str::<impl str>::as_bytes", "core::str::<impl str>::bytes", "core::str::<impl str>::char_indices", "core::str::<impl str>::is_ascii", "core::slice::<impl [u8]>::is_ascii", "core::slice::<impl [u8]>::make_ascii_uppercase", "core::slice::ascii::<impl [u8]>::make_ascii_uppercase", "core::slice::ascii::<impl [u8]>::make_ascii_lowercase", "core::slice::ascii::<impl [u8]>::is_ascii", "core::slice::ascii::<impl [u8]>::eq_ignore_ascii_case", "core::slice::<impl [u8]>::to_ascii_uppercase", "core::slice::<impl [u8]>::eq_ignore_ascii_case", "core::str::<impl str>::to_ascii_uppercase", "core::str::<impl str>::make_ascii_uppercase", "core::num::<impl u8>::to_ascii_uppercase", "core::num::<impl u8>::is_ascii", "core::num::<impl u8>::is_ascii_control", "std::str::from_utf8", "core::str::from_utf8",
     "digest::CtOutput::<T>::into_bytes", "digest::generic_array::GenericArray::<T, N>::as_slice",
     "std::array::<impl [T; N]>::as_slice", "std::array::<impl [T; N]>::as_mut_slice",
     "std::array::equality::<impl std::cmp::PartialEq<[U; N]> for [T; N]>::eq", "std::array::equality::<impl std::cmp::PartialEq<[U; N]> for [T; N]>::ne",
@@ -277,6 +277,20 @@ def call_obligation(ctx, rep, world, pr, p, b, bi, t, info, n_site, r32_sinks):
         ln = pr.len_range(srcv, bi)
         rep.check(ln == (n_, n_), "copy-len", p, "%s#%d" % (short, seq), "constant %d-byte destination range, source of length %s" % (n_, ln[0]), "copy_from_slice: destination has %d bytes, source length in [%s,%s]" % (n_, ln[0], ln[1]), b.loc(bi))
         return
+    if short in ("split_at", "split_at_mut") and "slice" in name and len(args) == 2:
+        base = se.call_old.get((info["site"], 0)) if strip(args[0])[0] == "mutref" else args[0]
+        ln = pr.len_range(base, bi) if base is not None else (0, INF)
+        m = pr.rng(args[1], bi)
+        rep.check(m[1] <= ln[0], "range-index", p, "%s#%d" % (short, seq), "split point in [%s,%s] <= len %s" % (m[0], m[1], ln[0]), "split point may exceed the length: mid in [%s,%s], length in [%s,%s]" % (m[0], m[1], ln[0], ln[1]), b.loc(bi))
+        return
+    if short in ("clone_from_slice", "copy_from_slice") and p not in r32_sinks:
+        # equal lengths by construction: both sides have the same symbolic length
+        dest = info["locargs"][0]
+        dterm = strip(dest[1][1]) if dest[0] == "ref" and dest[1][0] == "deref" else None
+        sd, ss = symlen(dterm) if dterm is not None else None, symlen(strip(args[1]))
+        if sd is not None and sd == ss:
+            rep.ok("copy-len", p, "%s#%d" % (short, seq), "destination and source both have length %s" % show(sd, maxdepth=3), b.loc(bi))
+            return
     if short in ("clone_from_slice", "copy_from_slice"):
         role = "%s#%d" % (short, seq)
         if p in r32_sinks:
@@ -381,6 +395,28 @@ def call_obligation(ctx, rep, world, pr, p, b, bi, t, info, n_site, r32_sinks):
         rep.violation("bounds", p, "diverging-call#%d" % seq, "explicit panic path: call to %s never returns" % name, b.loc(bi))
         return
     rep.undecided("bounds", p, "call:%s#%d" % (name[:60], seq), "call to %s is outside the modelled / allow-listed set" % name, b.loc(bi))
+
+
+def symlen(x):
+    """symbolic length of a slice-valued term, as a numnorm'ed expression, or None"""
+    if x is None:
+        return None
+    x = strip(x)
+    while util.is_call(x) and (x[1] in util.IDENT_CALLS or "deref" in x[1].lower()):
+        x = strip(x[2][0])
+    if x[0] == "field" and x[2] == 0 and util.is_call(x[1]) and x[1][1].split("::")[-1] in ("split_at", "split_at_mut"):
+        return util.numnorm(x[1][2][1])
+    if util.is_call(x) and x[1] in ("core::str::<impl str>::as_bytes", "std::string::String::as_bytes"):
+        return ("len", util.numnorm(x[2][0]))
+    if util.is_call(x) and (x[1].endswith("::index") or x[1].endswith("::index_mut")) and len(x[2]) == 2:
+        r = strip(x[2][1])
+        if r[0] == "agg" and r[2] == "std::ops::RangeTo":
+            return util.numnorm(r[4][0])
+        if r[0] == "agg" and r[2] == "std::ops::Range" and util.numnorm(r[4][0])[:2] == ("int", 0):
+            return util.numnorm(r[4][1])
+    if x[0] in ("param",):
+        return ("len", x)
+    return None
 
 
 def ksa_premise(ctx):
